@@ -128,3 +128,184 @@ Theorem C05_steering_current : forall title sec ps,
                (second_upper title).
 Proof. exact steering_pin. Qed.
 Print Assumptions C05_steering_current.
+
+(* ==== BEGIN block "read level" (audit D6) =======================================================
+   Correction of the header above: "free text assigned to exactly the section" and the read-level
+   composition ARE proved (Proofs/BlocksCongr.v, Proofs/SteeringFrame.v); they are stated here.
+   Of the theorems above, C05_steering_only_V_W, C05_steering_W_only_null, C05_steering_V_not_null
+   and C05_route_custom_frame are UNFOLDING LEMMAS of update_steering / route (one `if` each);
+   the property theorems about the steering clause are C05_steering_first_pass /
+   C05_steering_read_frame / C05_steering_read_blocks below.
+
+     C05_others          the ~Other loop: the text stored for section i is exactly the stripped
+                         body lines of block i -- wherever the block lies, ~O in the middle of
+                         the file included (the loop's own raw-line '~' test stops at the next
+                         title); no line dropped, duplicated or taken from a neighbour;
+     C05_views           title, body slice and ~Other text of every section at once = those of
+                         the blocks, in order;
+     C05_read_blocks_congr   Read.read is a function of the sequence of block views only: two
+                         texts whose blocks correspond and cannot be told apart by their consumers
+                         (header: same parse under every version/case/flag; ~Other: same stored
+                         text; data: same sniffing, token stream and genfromtxt rows) read equal,
+                         whatever lies before the first title and wherever the line numbers fall;
+     C05_read_uses_steering  the only values of the first pass that read consults afterwards are
+                         the state's p_dlm, p_wrapped, p_null (read_one_data), p_data/p_las3data
+                         and p_las; p_version steers the parsing of the later header sections
+                         inside the first pass;
+     C05_steering_first_pass / C05_steering_read_frame
+                         the steering values (VERS, WRAP, NULL, DLM as the reader holds them) at the
+                         end of the first pass are determined by: the titles, the items found under
+                         VERS / WRAP / DLM in the ~V-lettered header sections and the item found
+                         under NULL in the ~W-lettered ones.  steer_sec asks NOTHING of the bodies of
+                         ~C, ~P, custom, ~O and data sections, nothing of NULL in ~V, nothing of
+                         VERS / WRAP / DLM in ~W: items of those names there do not steer;
+     C05_steering_read_blocks   the same on blocks, syntactically: lines inserted anywhere in header
+                         blocks -- any non-title lines in ~C / ~P / custom blocks (items named VERS,
+                         WRAP, NULL, DLM included), lines that do not parse to VERS/WRAP/DLM in ~V
+                         (NULL allowed), lines that do not parse to NULL in ~W (VERS/WRAP/DLM
+                         allowed) -- and ANY change of ~O and data bodies leave the steering values
+                         unchanged (whenever both first passes succeed).
+   Not proved: permutation invariance as a single statement (C05_read_blocks_congr is per
+   position; a permuted file is a different sequence of views). *)
+Require Import SectionParse DataRead SectionsProofs JunkProofs JunkSteering ReadCongr BlocksCongr JunkRead SteeringFrame.
+
+Theorem C05_others : forall pre bs, notitles pre -> Forall wf_block bs ->
+  map (other_text (pre ++ render bs)) (find_sections (pre ++ render bs)) = map other_of_block bs.
+Proof. exact others_exact. Qed.
+
+Theorem C05_views : forall pre bs, notitles pre -> Forall wf_block bs ->
+  map (view (pre ++ render bs)) (find_sections (pre ++ render bs)) = map block_view bs.
+Proof. exact views_exact. Qed.
+
+Theorem C05_read_blocks_congr : forall fhex fstr numeq o t t' pre bs pre' bs',
+  lines_keep t = pre ++ render bs -> lines_keep t' = pre' ++ render bs' ->
+  notitles pre -> notitles pre' -> Forall wf_block bs -> Forall wf_block bs' ->
+  Forall2 block_equiv bs bs' ->
+  read fhex fstr numeq o t = read fhex fstr numeq o t'.
+Proof. exact read_blocks_congr. Qed.
+
+Theorem C05_read_uses_steering : forall fhex fstr numeq o text,
+  read fhex fstr numeq o text =
+  match find_sections (lines_keep text) with
+  | [] => RErr ENoSections
+  | _ => match first_pass o (lines_keep text) ps_init (find_sections (lines_keep text)) with
+         | inr e => RErr e
+         | inl ps => match dlm_of (p_dlm ps) with
+                     | None => RErr EKey
+                     | Some d => if o_ignore_data o then ROk (p_las ps) else
+                         match read_data_sections fhex fstr numeq o (lines_keep text) ps d
+                                 (match p_data ps with [] => p_las3data ps | x => x end) (p_las ps) with
+                         | inl l => ROk l | inr e => RErr e end end end end.
+Proof. exact read_uses_steering. Qed.
+
+Theorem C05_steering_first_pass : forall o ls ls' sects sects',
+  Forall2 (steer_sec o ls ls') sects sects' ->
+  forall ps ps', steer ps = steer ps' ->
+  forall qs qs', first_pass o ls ps sects = inl qs -> first_pass o ls' ps' sects' = inl qs' ->
+  steer qs = steer qs'.
+Proof. exact first_pass_steering. Qed.
+
+Theorem C05_steering_read_frame : forall o t t',
+  Forall2 (steer_sec o (lines_keep t) (lines_keep t'))
+          (find_sections (lines_keep t)) (find_sections (lines_keep t')) ->
+  forall s s', read_steering o t = Some s -> read_steering o t' = Some s' -> s = s'.
+Proof. exact read_steering_frame. Qed.
+
+Theorem C05_steering_read_blocks : forall o t t' pre pre' bs bs',
+  lines_keep t = pre ++ render bs -> lines_keep t' = pre' ++ render bs' ->
+  notitles pre -> notitles pre' -> Forall wf_block bs -> Forall wf_block bs' ->
+  Forall2 (steer_ins_block (o_mcase o)) bs bs' ->
+  forall s s', read_steering o t = Some s -> read_steering o t' = Some s' -> s = s'.
+Proof. exact read_steering_blocks. Qed.
+
+(* definitions used above, spelled out (unfolding lemmas) *)
+Theorem C05_steer_sec_unfold : forall o ls ls' p p',
+  steer_sec o ls ls' p p' <->
+  (sp_title p = sp_title p' /\
+   (section_type (sp_title p) = THeader ->
+    forall v r r',
+      parse_section v (sp_title p) (o_mcase o) (o_ignore_header_errors o) [ch_hash] (body_lines ls p) = POk r ->
+      parse_section v (sp_title p) (o_mcase o) (o_ignore_header_errors o) [ch_hash] (body_lines ls' p') = POk r' ->
+      let tr := match o_mcase o with CasePreserve => false | _ => true end in
+      (second_upper (sp_title p) = Some 86 ->
+         sect_find tr (s2l "VERS") r' = sect_find tr (s2l "VERS") r /\
+         sect_find tr (s2l "WRAP") r' = sect_find tr (s2l "WRAP") r /\
+         sect_find tr (s2l "DLM") r' = sect_find tr (s2l "DLM") r) /\
+      (second_upper (sp_title p) = Some 87 ->
+         sect_find tr (s2l "NULL") r' = sect_find tr (s2l "NULL") r))).
+Proof. reflexivity. Qed.
+
+Theorem C05_steer_ins_block_unfold : forall c b b',
+  steer_ins_block c b b' <->
+  (fst b = fst b' /\
+   (snd b = snd b' \/
+    section_type (strip (fst b)) <> THeader \/
+    ins_lines (fun j => forall v,
+                 startswith [ch_tilde] (strip j) = false /\
+                 forall it, parse_line v (kind_of_title (strip (strip (fst b)))) c (strip j) = Some it ->
+                   forallb (fun key => negb (mn_compare (tr_of c) (useful (i_orig it)) key))
+                           (match second_upper (strip (fst b)) with
+                            | Some 86 => [s2l "VERS"; s2l "WRAP"; s2l "DLM"]
+                            | Some 87 => [s2l "NULL"]
+                            | _ => []
+                            end) = true)
+              (snd b) (snd b'))).
+Proof. reflexivity. Qed.
+
+Theorem C05_read_steering_unfold : forall o text,
+  read_steering o text =
+  match first_pass o (lines_keep text) ps_init (find_sections (lines_keep text)) with
+  | inl ps => Some (p_version ps, p_wrapped ps, p_null ps, p_dlm ps)
+  | inr _ => None
+  end.
+Proof. reflexivity. Qed.
+
+(* non-vacuity: six blocks with ~O in the MIDDLE (ex_base of Proofs/SteeringFrame.v: ~V, ~W, ~O,
+   ~C, ~MyCustom, ~A; every line with its "\n") and the file ex_more that adds NULL to ~V, VERS /
+   WRAP / DLM to ~W, items named VERS, WRAP, NULL, DLM to ~C and ~MyCustom, replaces the ~O text
+   and adds a data line *)
+Example C05_ex_middle_other :
+  Forall wf_block ex_base /\
+  map (other_text (render ex_base)) (find_sections (render ex_base)) = map other_of_block ex_base /\
+  nth 2 (map other_of_block ex_base) [] = s2l "free text" /\
+  map (body_lines (render ex_base)) (find_sections (render ex_base)) = map snd ex_base.
+Proof. split; [exact (proj1 steering_ex_wf)|]. vm_compute. repeat split; reflexivity. Qed.
+(* ... and through read: ~Other holds its own line only, ~C its two items, the custom section is
+   kept under its title, the data section its two rows *)
+Example C05_ex_middle_other_read :
+  match read (fun t => Some t) (fun t => t) (fun a b => str_eqb a b) ex_o (ex_text ex_base) with
+  | ROk l => l_other l = s2l "free text" /\ map i_orig (s_items (l_curves l)) = [s2l "DEPT"; s2l "A"] /\
+             map fst (l_custom l) = [s2l "MyCustom"] /\
+             l_data l = [ [CNum (s2l "1"); CNum (s2l "3")]; [CNum (s2l "2"); CNum (s2l "4")] ]
+  | RErr _ => False
+  end.
+Proof. vm_compute. repeat split; reflexivity. Qed.
+Example C05_ex_steering_hyps :
+  lines_keep (ex_text ex_base) = render ex_base /\ lines_keep (ex_text ex_more) = render ex_more /\
+  Forall wf_block ex_base /\ Forall wf_block ex_more /\
+  Forall2 (steer_ins_block CasePreserve) ex_base ex_more.
+Proof.
+  destruct steering_ex_lines as (E1 & E2 & _). destruct steering_ex_wf as (W1 & W2).
+  repeat split; try assumption. exact steering_ex_blocks.
+Qed.
+Example C05_ex_steering_values :
+  read_steering ex_o (ex_text ex_base) =
+    Some (VFloat (s2l "2.0"), VStr (s2l "NO"), Some (VFloat (s2l "-999.25")), VStr (s2l "SPACE")) /\
+  read_steering ex_o (ex_text ex_more) = read_steering ex_o (ex_text ex_base).
+Proof. exact steering_ex_values. Qed.
+(* negative control: a NULL line added to ~W itself does change the steering values *)
+Example C05_ex_steering_negative :
+  read_steering ex_o (ex_text ex_bad) <> read_steering ex_o (ex_text ex_base).
+Proof. exact steering_ex_negative. Qed.
+
+Print Assumptions C05_others.
+Print Assumptions C05_views.
+Print Assumptions C05_read_blocks_congr.
+Print Assumptions C05_read_uses_steering.
+Print Assumptions C05_steering_first_pass.
+Print Assumptions C05_steering_read_frame.
+Print Assumptions C05_steering_read_blocks.
+Print Assumptions C05_steer_sec_unfold.
+Print Assumptions C05_steer_ins_block_unfold.
+Print Assumptions C05_read_steering_unfold.
+(* ==== END block "read level" (audit D6) ========================================================= *)
